@@ -5,6 +5,7 @@ From Coq Require Import ZArith List Bool String Reals.
 From VQ Require Import Num Model.Vec Model.Core Model.Residual Proofs.CoreNearest Proofs.ResidualProofs Proofs.CodecProofs Glue.CoreGlue Glue.Pin_p_residual Glue.Pin_p_decode.
 From VQ Require Import Model.Einops Model.Layout Glue.EinopsGlueBase Glue.EinopsGlueMore.
 From VQ Require Import Model.Machine Model.History Proofs.HistoryProofs.
+From VQ Require Import Glue.Pin_fp_C02.
 Import ListNotations.
 Open Scope R_scope.
 
@@ -186,3 +187,8 @@ Theorem C02_history_decode_reads_current_codebook :
        cs = @decode F s0 idx.
 Proof. exact (@HistoryProofs.history_decode_reads_current_codebook). Qed.
 Print Assumptions C02_history_decode_reads_current_codebook.
+
+Theorem C02_tie_source_footprint :
+  fp_C02.fp_C02 = pinned_fp_C02.
+Proof. exact (@Pin_fp_C02.pin_fp_C02). Qed.
+Print Assumptions C02_tie_source_footprint.
